@@ -11,7 +11,7 @@ tie:    harness/c06_mip.cc drives real MIP_Problem objects through seeded histor
         data (`Problem.apply`) and judges every observation with the proved reference.
 A call that exceeds its CPU limit is journalled `timeout` and is inconclusive (DESIGN §4 (viii)).
 """
-import collections, concurrent.futures as cf, glob, hashlib, os, re
+import collections, concurrent.futures as cf, glob, hashlib, os, re, time
 
 from .common import VERIF
 
@@ -185,7 +185,66 @@ def classify(hist, idx, verdict):
     return {"site": site, "tags": tags}
 
 
-def examine(ctx, hist, verd_of, where, stats, seen_sites):
+def ops_of(hist):
+    """the re-executable part of a journal: constructors, mutators, copies and the observer calls"""
+    out = []
+    for l in hist:
+        t = l.split()
+        if not t:
+            continue
+        if t[0] in ("hist", "new", "newc", "op", "copy", "drop"):
+            out.append(l)
+        elif t[0] == "obs" and len(t) > 2 and t[2] != "okinv":
+            out.append(" ".join(t[:3]))
+    return out
+
+
+class Replayer:
+    def __init__(self, ctx, harness, driver, wd):
+        self.ctx, self.h, self.d, self.wd, self.n = ctx, harness, driver, wd, 0
+
+    def run(self, ops):
+        """re-executes `ops` on the real library -> (journal lines, {line index: verdict})"""
+        self.n += 1
+        p = os.path.join(self.wd, "replay.ops")
+        with open(p, "w") as f:
+            f.write("\n".join(ops) + "\n")
+        jp = os.path.join(self.wd, "replay.journal")
+        rc, _, err = self.ctx.run([self.h, "--replay", p], stdout_path=jp, timeout=300)
+        if rc != 0:
+            return [], {}
+        lines = open(jp).read().splitlines()
+        return lines, run_driver(self.ctx, self.d, lines, os.path.join(self.wd, "replay.in"))
+
+    def obligations(self, ops):
+        lines, verd = self.run(ops)
+        return set(v[1].split()[0] for v in verd.values() if v[0] == "MISMATCH")
+
+    def shrink(self, ops, obligation, budget=80):
+        """ddmin over the op list, keeping a failure of the same obligation"""
+        if obligation not in self.obligations(ops):
+            return ops, False
+        head, body = ops[:1], ops[1:]
+        n, runs = 2, 0
+        while len(body) >= 2 and runs < budget:
+            chunk = max(1, len(body) // n)
+            reduced = False
+            for i in range(0, len(body), chunk):
+                cand = body[:i] + body[i + chunk:]
+                runs += 1
+                if cand and obligation in self.obligations(head + cand):
+                    body, n, reduced = cand, max(n - 1, 2), True
+                    break
+                if runs >= budget:
+                    break
+            if not reduced:
+                if chunk == 1:
+                    break
+                n = min(len(body), n * 2)
+        return head + body, True
+
+
+def examine(ctx, hist, verd_of, where, stats, seen_sites, replayer=None):
     """walk one history; report the first failing event of every slot (later events on a slot whose
     object already answered wrongly, and on its copies, repeat the same defect)."""
     tainted = set()
@@ -215,26 +274,73 @@ def examine(ctx, hist, verd_of, where, stats, seen_sites):
             continue
         tainted.add(slot)
         rec = classify(hist, i, v[1])
-        ops_only = [x for x in hist[: i + 1] if x.split()[0] in ("hist", "new", "newc", "op", "copy", "drop", "obs")]
-        what = "C06 %s | event: %s | after %d journal lines" % (v[1][:400], l[:200], i)
+        # a broken build fails thousands of observations: report each structural class a few times only
+        skey = (rec["site"], tuple(sorted(x for x in rec["tags"] if not x.startswith(("window_", "via_")))))
+        stats["failing_events"] += 1
+        seen_sites[skey] = seen_sites.get(skey, 0) + 1
+        if seen_sites[skey] > 3 or stats["failing_events_reported"] >= 40:
+            stats["failing_events_not_reported_again"] += 1
+            continue
+        stats["failing_events_reported"] += 1
+        ops_only = ops_of(hist[: i + 1])
+        shrunk, reproduced = ops_only, None
+        if replayer is not None and ctx.match_known(rec) is None:
+            shrunk, reproduced = replayer.shrink(ops_only, v[1].split()[0])
+        what = "C06 %s | event: %s | after %d journal lines (%d operations after shrinking)" % (
+            v[1][:400], l[:200], i, len(shrunk))
         ctx.violation(what, {
-            "history": hist[: i + 1], "ops": ops_only, "verdict": v[1], "site": rec["site"], "tags": rec["tags"],
-            "found_at": where,
-            "how_to_replay": "printf '%s\\n' <ops> > f.ops ; build/c06_mip-* --replay f.ops | lean/.lake/build/bin/pplv_mip",
+            "history": hist[: i + 1], "ops": shrunk, "ops_before_shrinking": len(ops_only), "reproduced_by_replay": reproduced,
+            "verdict": v[1], "site": rec["site"], "tags": rec["tags"], "found_at": where,
+            "how_to_replay": "bin/check C06 --replay <this file>   (or: printf '%s\\n' <ops> > f.ops ; build/c06_mip-* --replay f.ops | lean/.lake/build/bin/pplv_mip)",
         }, found_input=True, record=rec)
 
 
-def run(ctx):
+def replay(ctx, path):
+    """bin/check C06 --replay replays/C06-….json : re-execute the recorded operation list on the real
+    library of the current tree and re-judge it with the driver; 1 = the property is still violated."""
+    import json
     ctx.ensure_ppl()
+    drv = ctx.ensure_pplv("pplv_mip")
+    h = ctx.compile_harness("c06_mip.cc")
+    R = Replayer(ctx, h, drv, ctx.workdir())
+    obj = json.load(open(path))
+    ops = obj.get("ops") or ops_of(obj.get("history", []))
+    print("property=C06 what=%s" % str(obj.get("what", "-"))[:300])
+    lines, verd = R.run(ops)
+    for i, l in enumerate(lines):
+        v = verd.get(i)
+        print("  %-78s %s" % (l[:78], (v[0] + " " + v[1][:200]) if v else ""), flush=True)
+    failing = [(i, v) for i, v in sorted(verd.items()) if v[0] == "MISMATCH"]
+    if not failing:
+        print("replay of %d operations: every observation is right" % len(ops))
+        return 0
+    i, v = failing[0]
+    hist = split_histories(lines)
+    hist = hist[0] if hist else lines
+    rec = classify(hist, hist.index(lines[i]) if lines[i] in hist else i, v[1])
+    k = ctx.match_known(rec)
+    if k is not None:
+        print("KNOWN-FINDING: property=C06 %s [%s]" % (k["what"][:200], k["id"]))
+        return 0
+    print("VIOLATION property=C06 replay=%s" % path)
+    return 1
+
+
+def run(ctx):
+    t0 = time.time()
+    ctx.ensure_ppl()
+    t1 = time.time()
     broken = ctx.prove(["PPLV.Props.C06"])
     if ctx.tier == "thorough":
         broken += ctx.leanchecker(["PPLV.Props.C06"])
     drv = ctx.ensure_pplv("pplv_mip")
     h = ctx.compile_harness("c06_mip.cc")
     wd = ctx.workdir()
+    t2 = time.time()
     quick = ctx.tier == "quick"
     stats = collections.Counter()
-    seen_sites = set()
+    seen_sites = {}
+    R = Replayer(ctx, h, drv, wd)
 
     # ---- 1. regression inputs first -------------------------------------------------------------
     corpus = sorted(glob.glob(os.path.join(CORPUS, "*.ops")))
@@ -247,7 +353,7 @@ def run(ctx):
         verd = run_driver(ctx, drv, lines, os.path.join(wd, "corpus%d.in" % k))
         for hist in split_histories(lines):
             base = lines.index(hist[0])
-            examine(ctx, hist, lambda i, b=base: verd.get(b + i), "corpus/" + os.path.basename(p), stats, seen_sites)
+            examine(ctx, hist, lambda i, b=base: verd.get(b + i), "corpus/" + os.path.basename(p), stats, seen_sites, R)
     stats_corpus = dict(stats)
 
     # ---- 2. seeded histories, in parallel ---------------------------------------------------------
@@ -276,6 +382,7 @@ def run(ctx):
         for r in ex.map(work, range(nproc)):
             results += r
 
+    t3 = time.time()
     distinct, nontrivial, samples = set(), 0, []
     opc, obsc, statusc = collections.Counter(), collections.Counter(), collections.Counter()
     n_hists = 0
@@ -310,7 +417,7 @@ def run(ctx):
                     nontrivial += 1
                     if len(samples) < 2:
                         samples.append(hist[:16])
-            examine(ctx, hist, lambda i, b=base, v=verd: v.get(b + i), "seed %d" % ctx.seed, stats, seen_sites)
+            examine(ctx, hist, lambda i, b=base, v=verd: v.get(b + i), "seed %d" % ctx.seed, stats, seen_sites, R)
 
     for b in broken:
         ctx.violation("proof obligation of C06 does not check: " + b,
@@ -327,8 +434,11 @@ def run(ctx):
         "observations_decided": decided, "observations_mismatch": stats["MISMATCH"],
         "observations_one_sided_or_inconclusive": {k[5:]: v for k, v in stats.items() if k.startswith("skip:")},
         "repeat_on_tainted_slot": stats["repeat_on_tainted_slot"],
+        "failing_events": stats["failing_events"], "failing_events_not_reported_again": stats["failing_events_not_reported_again"],
         "op_histogram": dict(opc), "observer_histogram": dict(obsc), "solve_status_histogram": dict(statusc),
         "timeouts_inconclusive": timeouts, "call_cpu_limit_ms": call_ms,
+        "phase_seconds": {"ppl_build_and_lock": round(t1 - t0, 1), "lean_prove_audit_driver_harness_build": round(t2 - t1, 1),
+                          "corpus_and_histories": round(t3 - t2, 1), "examine": round(time.time() - t3, 1)},
     })
     ctx.assumptions += [
         "the judge is proved: LP answers exact (K1), MIP reference exact when every integer variable is bounded in the relaxation; "
